@@ -15,7 +15,7 @@
 // Model recipe syntax: numbers as in recipe.h, I, pi, (ref i j ...) = sub-object reached through
 //   get_args() indices, (add a b) (sub a b) (mul a b) (div a b) (pow a b) (neg a) (exp a) (sqrt a)
 //   (addv a...) (mulv a...) (f1 <Class> a) (uneval a) (keeppow (p i...) a b) (keepcreate (p i...) a)
-//   (create (p i...) a...) (rawconj a).
+//   (keepcreate2 (p i...) a b) (create (p i...) a...) (rawconj a) (datnmul <coef> exp t exp t ...).
 //
 // Oracles (on the library's own outputs, independent of the Coq model), numeric at fixed sample
 // points (symbols by name -> positive reals; for the rewriting family also non-real complex points):
@@ -109,6 +109,30 @@ static RCP<const Basic> ev(const verif::Sexp &e, const RCP<const Basic> &root)
         if (eq(*a, *f.get_arg()))
             return x;
         return f.create(a);
+    }
+    if (op == "keepcreate2") {
+        RCP<const Basic> x = resolve(root, e.kids.at(1), 1);
+        RCP<const Basic> a = arg(2), b = arg(3);
+        if (auto f = dynamic_cast<const TwoArgBasic<Function> *>(x.get())) {
+            if (f->get_arg1() != a or f->get_arg2() != b)
+                return f->create(a, b);
+            return x;
+        }
+        if (auto r = dynamic_cast<const TwoArgBasic<Relational> *>(x.get())) {
+            if (r->get_arg1() != a or r->get_arg2() != b)
+                return r->create(a, b);
+            return x;
+        }
+        throw std::runtime_error("mrecipe: keepcreate2 on a non-TwoArgBasic");
+    }
+    if (op == "datnmul") {
+        RCP<const Number> coef = rcp_static_cast<const Number>(verif::eval_recipe(e.kids.at(1)));
+        map_basic_basic d;
+        for (size_t i = 2; i + 1 < e.kids.size(); i += 2) {
+            RCP<const Basic> x = arg(i), t = arg(i + 1);
+            Mul::dict_add_term_new(outArg(coef), d, x, t);
+        }
+        return Mul::from_dict(coef, std::move(d));
     }
     if (op == "create") {
         RCP<const Basic> x = resolve(root, e.kids.at(1), 1);
@@ -253,6 +277,26 @@ static bool has_nonint_pow(const RCP<const Basic> &e)
     return false;
 }
 
+static bool has_class(const RCP<const Basic> &e, TypeID id)
+{
+    if (e->get_type_code() == id)
+        return true;
+    for (const auto &a : e->get_args())
+        if (has_class(a, id))
+            return true;
+    return false;
+}
+
+static bool has_index_function(const RCP<const Basic> &e)
+{
+    if (is_a<KroneckerDelta>(*e) or is_a<LeviCivita>(*e))
+        return true;
+    for (const auto &a : e->get_args())
+        if (has_index_function(a))
+            return true;
+    return false;
+}
+
 static std::string oracle_analyse(const RCP<const Basic> &e, const Out &nd, const Out &ri)
 {
     std::string o;
@@ -288,6 +332,7 @@ static std::string oracle_analyse(const RCP<const Basic> &e, const Out &nd, cons
         }
     }
     if (ri.ok) {
+        const std::string cls = has_class(e, SYMENGINE_COT) ? "cot" : has_nonint_pow(e) ? "nonint-pow" : "other";
         for (int k = 0; k < 2; k++) {
             map_basic_basic pt = make_point(e, k);
             cplx ve, vr, vi;
@@ -311,7 +356,13 @@ static std::string oracle_rewrite(const std::string &op, const RCP<const Basic> 
 {
     if (not r.ok)
         return "";
+    // a symbol-free input is a single point, typically on the branch cuts of the inverse functions
+    if (free_symbols(*e).empty())
+        return "";
     bool conj = op == "CONJ";
+    // KroneckerDelta / LeviCivita are returned unchanged (real for the intended integer arguments)
+    if (conj and has_index_function(e))
+        return "";
     for (int k = 2; k < 4; k++) {
         map_basic_basic pt = make_point(e, k);
         cplx ve, vr;
